@@ -89,3 +89,25 @@ Theorem C20_sorted_head_is_first_minimiser : forall (A : Type) (l : list (A * (Z
   hd d (isort_k (best :: l)) = pick_k best l.
 Proof. exact @hd_isort_pick. Qed.
 Print Assumptions C20_sorted_head_is_first_minimiser.
+(* the world's sort on a concrete list with equal keys (what CPython's sorted gives: [c; d; b; a], the equal keys of c and d in
+   their original order) *)
+Example C20_sorted_key_example :
+  sorted_key [VI 1; VI 2; VI 3; VI 4] [VT [VI 1; VI (-5)]; VT [VI 0; VI (-9)]; VT [VI 0; VI (-10)]; VT [VI 0; VI (-10)]]
+  = Some [VI 3; VI 4; VI 2; VI 1].
+Proof. reflexivity. Qed.
+
+(* ---- the world's sorted/key is a stable sort: a permutation of its input, ordered by the keys, equal keys in their original order
+   (what the documentation of sorted() promises; CPython's implementation of it is not verified) *)
+From V Require Import Proofs.Flow_core_sort.
+From Coq Require Import Sorting.Sorted Sorting.Permutation.
+Theorem C20_world_sort_is_permutation : forall (A : Type) (l : list (A * (Z * Z))), Permutation (isort_k l) l.
+Proof. exact @isort_k_perm. Qed.
+Print Assumptions C20_world_sort_is_permutation.
+Theorem C20_world_sort_is_ordered : forall (A : Type) (l : list (A * (Z * Z))),
+  StronglySorted (fun x y => key_lt (snd y) (snd x) = false) (isort_k l).
+Proof. exact @isort_k_sorted. Qed.
+Print Assumptions C20_world_sort_is_ordered.
+Theorem C20_world_sort_is_stable : forall (A : Type) (l : list (A * (Z * Z))) k,
+  List.filter (fun e => eqk (snd e) k) (isort_k l) = List.filter (fun e => eqk (snd e) k) l.
+Proof. exact @isort_k_stable. Qed.
+Print Assumptions C20_world_sort_is_stable.
